@@ -1,5 +1,6 @@
 import RV.Proofs.CollisionResolve
 import RV.Proofs.CollisionPrune
+import RV.Proofs.CollisionTree
 /-
   C13 — collisions are detected completely and resolved conservatively.
 
@@ -274,62 +275,62 @@ variable {K : Type} [Field K] [LinearOrder K] [IsStrictOrderedRing K]
 /-- the merged particle carries the summed mass, momentum and mass-weighted position of the
     pair (total mass non-zero), keeps the survivor's identity and is stamped
     `last_collision = t` -/
-theorem c13_merge_pair_conserves (cbrtF : K → K) (t : K) (pi pj : Part K) (hm : pi.m + pj.m ≠ 0) :
-    let p := mergePair cbrtF t pi pj
+theorem c13_merge_pair_conserves (mid : Bool) (cbrtF : K → K) (t : K) (pi pj : Part K) (hm : pi.m + pj.m ≠ 0) :
+    let p := mergePair mid cbrtF t pi pj
     p.m = pi.m + pj.m ∧
     p.m * p.vx = pi.m * pi.vx + pj.m * pj.vx ∧ p.m * p.vy = pi.m * pi.vy + pj.m * pj.vy ∧
     p.m * p.vz = pi.m * pi.vz + pj.m * pj.vz ∧
     p.m * p.x = pi.m * pi.x + pj.m * pj.x ∧ p.m * p.y = pi.m * pi.y + pj.m * pj.y ∧
     p.m * p.z = pi.m * pi.z + pj.m * pj.z ∧ p.id = pi.id ∧ p.lc = t := by
-  have h := mergePair_additive cbrtF t pi pj hm
+  have h := mergePair_additive mid cbrtF t pi pj hm
   simp only [conservedQ, List.mem_cons, List.not_mem_nil, or_false, forall_eq_or_imp, forall_eq] at h
   obtain ⟨h1, h2, h3, h4, h5, h6, h7⟩ := h
-  exact ⟨h1, h2, h3, h4, h5, h6, h7, rfl, rfl⟩
+  exact ⟨h1, h2, h3, h4, h5, h6, h7, (mergePair_id mid cbrtF t pi pj).1, (mergePair_id mid cbrtF t pi pj).2⟩
 
 /-- the return value asks for the removal of the *higher* index (1 = p1, 2 = p2), the lower
     index receives the merged particle -/
-theorem c13_merge_removes_higher_index (cbrtF : K → K) (t : K) (s : Sim (Part K)) (c : Coll (GB K))
+theorem c13_merge_removes_higher_index (mid : Bool) (cbrtF : K → K) (t : K) (s : Sim (Part K)) (c : Coll (GB K))
     (n1 n2 : Nat) (hp1 : c.p1 = n1) (hp2 : c.p2 = n2) (h1 : n1 < s.ps.length) (h2 : n2 < s.ps.length)
     (hlc1 : s.ps[n1].lc ≠ t) (hlc2 : s.ps[n2].lc ≠ t) :
-    merge cbrtF t s c =
-      if n2 < n1 then ({ s with ps := s.ps.set n2 (mergePair cbrtF t s.ps[n2] s.ps[n1]) }, 1)
-      else ({ s with ps := s.ps.set n1 (mergePair cbrtF t s.ps[n1] s.ps[n2]) }, 2) :=
-  merge_eval cbrtF t s c n1 n2 hp1 hp2 h1 h2 hlc1 hlc2
+    merge mid cbrtF t s c =
+      if n2 < n1 then ({ s with ps := s.ps.set n2 (mergePair mid cbrtF t s.ps[n2] s.ps[n1]) }, 1)
+      else ({ s with ps := s.ps.set n1 (mergePair mid cbrtF t s.ps[n1] s.ps[n2]) }, 2) :=
+  merge_eval mid cbrtF t s c n1 n2 hp1 hp2 h1 h2 hlc1 hlc2
 
 /-- a particle that took part in a collision at time `t` is not merged again at `t`:
     the guard returns 0 and leaves the state alone -/
-theorem c13_merge_not_twice (cbrtF : K → K) (t : K) (s : Sim (Part K)) (c : Coll (GB K))
+theorem c13_merge_not_twice (mid : Bool) (cbrtF : K → K) (t : K) (s : Sim (Part K)) (c : Coll (GB K))
     (q1 q2 : Part K) (l1 : lookup s c.p1 = some q1) (l2 : lookup s c.p2 = some q2)
-    (h : q1.lc = t ∨ q2.lc = t) : merge cbrtF t s c = (s, 0) :=
-  merge_guard cbrtF t s c q1 q2 l1 l2 h
+    (h : q1.lc = t ∨ q2.lc = t) : merge mid cbrtF t s c = (s, 0) :=
+  merge_guard mid cbrtF t s c q1 q2 l1 l2 h
 
 /-- merge satisfies the resolver hypothesis of `c13_fixup_invariant` -/
-theorem c13_merge_is_admissible_resolver (cbrtF : K → K) (t : K) :
-    ResOK (fun p : Part K => p.id) (G := GB K) (merge cbrtF t) :=
-  merge_resOK cbrtF t
+theorem c13_merge_is_admissible_resolver (mid : Bool) (cbrtF : K → K) (t : K) :
+    ResOK (fun p : Part K => p.id) (G := GB K) (merge mid cbrtF t) :=
+  merge_resOK mid cbrtF t
 
 /-- **merge step on the array** (no tree, sorted or unsorted removal): one iteration of the
     driver with the merge resolver on a valid entry removes exactly one particle and conserves
     the array totals of mass, momentum and mass-weighted position (centre of mass). -/
-theorem c13_merge_step_conserves (v : RmVariant) (cbrtF : K → K) (t : K) (ks : Bool) (s : Sim (Part K))
+theorem c13_merge_step_conserves (v : RmVariant) (mid : Bool) (cbrtF : K → K) (t : K) (ks : Bool) (s : Sim (Part K))
     (hc : Cfg ks s) (ht : s.tree = false) (c : Coll (GB K)) (rest : List (Coll (GB K)))
     (n1 n2 : Nat) (hp1 : c.p1 = n1) (hp2 : c.p2 = n2) (hne : n1 ≠ n2)
     (h1 : n1 < s.ps.length) (h2 : n2 < s.ps.length)
     (hlc1 : s.ps[n1].lc ≠ t) (hlc2 : s.ps[n2].lc ≠ t) (hm : s.ps[n1].m + s.ps[n2].m ≠ 0) :
-    let s' := (processOne v flagPart (merge cbrtF t) ks s c rest).1
+    let s' := (processOne v flagPart (merge mid cbrtF t) ks s c rest).1
     s'.ps.length + 1 = s.ps.length ∧
     ∀ f ∈ (conservedQ : List (Part K → K)), total f s'.ps = total f s.ps := by
-  have hev := merge_eval cbrtF t s c n1 n2 hp1 hp2 h1 h2 hlc1 hlc2
+  have hev := merge_eval mid cbrtF t s c n1 n2 hp1 hp2 h1 h2 hlc1 hlc2
   have hcond : (c.p1 != -1 && c.p2 != -1) = true := by
     simp only [Bool.and_eq_true, bne_iff_ne]; omega
   -- WLOG on the order of the two indices; `lo` survives, `hi` is removed
   by_cases hsw : n2 < n1
   · rw [if_pos hsw] at hev
-    set s1 : Sim (Part K) := { s with ps := s.ps.set n2 (mergePair cbrtF t s.ps[n2] s.ps[n1]) } with hs1
+    set s1 : Sim (Part K) := { s with ps := s.ps.set n2 (mergePair mid cbrtF t s.ps[n2] s.ps[n1]) } with hs1
     have hc1 : Cfg ks s1 := ⟨hc.nvar, hc.hyb, hc.mode⟩
     have hlen1 : n1 < s1.ps.length := by simp [hs1]; exact h1
     obtain ⟨s', hrm, hps, _, _, _⟩ := removeParticle_notree v flagPart s1 ks n1 hlen1 hc1 ht
-    have hproc : (processOne v flagPart (merge cbrtF t) ks s c rest).1 = s' := by
+    have hproc : (processOne v flagPart (merge mid cbrtF t) ks s c rest).1 = s' := by
       unfold processOne
       simp only [hcond, if_true, hev]
       unfold removeAndFix
@@ -341,14 +342,14 @@ theorem c13_merge_step_conserves (v : RmVariant) (cbrtF : K → K) (t : K) (ks :
     refine ⟨?_, ?_⟩
     · rw [rmList_length ks _ n1 hlen1]; simp [hs1]; omega
     · intro f hf
-      have hadd := mergePair_additive cbrtF t s.ps[n2] s.ps[n1] (by rw [add_comm]; exact hm) f hf
+      have hadd := mergePair_additive mid cbrtF t s.ps[n2] s.ps[n1] (by rw [add_comm]; exact hm) f hf
       exact total_merge f ks s.ps n2 n1 (Ne.symm hne) h2 h1 _ hadd
   · rw [if_neg hsw] at hev
-    set s1 : Sim (Part K) := { s with ps := s.ps.set n1 (mergePair cbrtF t s.ps[n1] s.ps[n2]) } with hs1
+    set s1 : Sim (Part K) := { s with ps := s.ps.set n1 (mergePair mid cbrtF t s.ps[n1] s.ps[n2]) } with hs1
     have hc1 : Cfg ks s1 := ⟨hc.nvar, hc.hyb, hc.mode⟩
     have hlen1 : n2 < s1.ps.length := by simp [hs1]; exact h2
     obtain ⟨s', hrm, hps, _, _, _⟩ := removeParticle_notree v flagPart s1 ks n2 hlen1 hc1 ht
-    have hproc : (processOne v flagPart (merge cbrtF t) ks s c rest).1 = s' := by
+    have hproc : (processOne v flagPart (merge mid cbrtF t) ks s c rest).1 = s' := by
       unfold processOne
       simp only [hcond, if_true, hev]
       unfold removeAndFix
@@ -360,8 +361,21 @@ theorem c13_merge_step_conserves (v : RmVariant) (cbrtF : K → K) (t : K) (ks :
     refine ⟨?_, ?_⟩
     · rw [rmList_length ks _ n2 hlen1]; simp [hs1]; omega
     · intro f hf
-      have hadd := mergePair_additive cbrtF t s.ps[n1] s.ps[n2] hm f hf
+      have hadd := mergePair_additive mid cbrtF t s.ps[n1] s.ps[n2] hm f hf
       exact total_merge f ks s.ps n1 n2 hne h1 h2 _ hadd
+
+/-- with the massless guard (`fixes/C13-merge-massless.diff`) two massless particles merge at
+    the midpoint of their positions and velocities (no division by the zero total mass);
+    without it the model, like the code, computes `(0·x + 0·x')·(1/0)` (finding F19) -/
+theorem c13_merge_massless_midpoint (cbrtF : K → K) (t : K) (pi pj : Part K) (hm : pi.m + pj.m = 0) :
+    let p := mergePair true cbrtF t pi pj
+    p.x = 1/2*(pi.x + pj.x) ∧ p.y = 1/2*(pi.y + pj.y) ∧ p.z = 1/2*(pi.z + pj.z) ∧
+    p.vx = 1/2*(pi.vx + pj.vx) ∧ p.vy = 1/2*(pi.vy + pj.vy) ∧ p.vz = 1/2*(pi.vz + pj.vz) ∧
+    p.m = 0 ∧ p.id = pi.id := by
+  have h0 : feq (pi.m + pj.m) (0 : K) = true := (feq_iff _ _).mpr hm
+  unfold mergePair
+  simp only [sc_hadd, sc_zero, h0, Bool.and_self, if_true, sc_hmul, sc_hdiv, sc_one, sc_ofNat, Nat.cast_ofNat]
+  simp [hm]
 
 end merge
 
@@ -371,14 +385,15 @@ variable {K : Type} [Field K] [LinearOrder K] [IsStrictOrderedRing K]
 
 /-- a bounce conserves the pair's momentum and moves nobody, for every impulse `dvx2`, every
     rotation and every restitution (total mass non-zero) -/
-theorem c13_hardsphere_momentum (st ct sp cp dvx2 t : K) (p1 p2 : Part K) (hM : p1.m + p2.m ≠ 0) :
-    let n := hsApply st ct sp cp dvx2 t p1 p2 p1 p2
+theorem c13_hardsphere_momentum (eqm : Bool) (st ct sp cp dvx2 t : K) (p1 p2 : Part K) (hM : p1.m + p2.m ≠ 0) :
+    let n := hsApply eqm st ct sp cp dvx2 t p1 p2 p1 p2
     n.1.m * n.1.vx + n.2.m * n.2.vx = p1.m * p1.vx + p2.m * p2.vx ∧
     n.1.m * n.1.vy + n.2.m * n.2.vy = p1.m * p1.vy + p2.m * p2.vy ∧
     n.1.m * n.1.vz + n.2.m * n.2.vz = p1.m * p1.vz + p2.m * p2.vz ∧
     n.1.m = p1.m ∧ n.2.m = p2.m ∧
     (n.1.x, n.1.y, n.1.z) = (p1.x, p1.y, p1.z) ∧ (n.2.x, n.2.y, n.2.z) = (p2.x, p2.y, p2.z) := by
-  simp only [hsApply, sc_hadd, sc_hsub, sc_hmul, sc_hdiv, and_true]
+  rw [hsApply_massive eqm st ct sp cp dvx2 t p1 p2 p1 p2 hM]
+  simp only [hsApply, sc_hadd, sc_hsub, sc_hmul, sc_hdiv, and_true, Bool.false_and, Bool.false_eq_true, if_false]
   refine ⟨?_, ?_, ?_⟩ <;> field_simp <;> ring
 
 /-- with `minimum_collision_velocity = 0` an approaching pair receives the impulse
@@ -391,21 +406,22 @@ theorem c13_hardsphere_impulse (eps mcv rr vn : K) (p1 p2 : Part K) :
 /-- the relative velocity along the impulse axis after the bounce is `vₙ + dvx2`
     (rotation given by `sin²+cos² = 1` for both angles); with `dvx2 = −(1+ε)vₙ` it is `−ε·vₙ`,
     i.e. separating for `ε ≥ 0`, `vₙ ≤ 0` -/
-theorem c13_hardsphere_normal_velocity (st ct sp cp dvx2 t : K) (gb : GB K) (p1 p2 : Part K)
+theorem c13_hardsphere_normal_velocity (eqm : Bool) (st ct sp cp dvx2 t : K) (gb : GB K) (p1 p2 : Part K)
     (hθ : st*st + ct*ct = 1) (hφ : sp*sp + cp*cp = 1) (hM : p1.m + p2.m ≠ 0) :
-    let n := hsApply st ct sp cp dvx2 t p1 p2 p1 p2
+    let n := hsApply eqm st ct sp cp dvx2 t p1 p2 p1 p2
     hsVn st ct sp cp (relOf n.1 n.2 gb) = hsVn st ct sp cp (relOf p1 p2 gb) + dvx2 := by
   have hu := axis_unit st ct sp cp hθ hφ
-  simp only [hsApply, hsVn, relOf, sc_hadd, sc_hsub, sc_hmul, sc_hdiv]
+  rw [hsApply_massive eqm st ct sp cp dvx2 t p1 p2 p1 p2 hM]
+  simp only [hsApply, hsVn, relOf, sc_hadd, sc_hsub, sc_hmul, sc_hdiv, Bool.false_and, Bool.false_eq_true, if_false]
   field_simp
   linear_combination (dvx2 * (p1.m + p2.m)) * hu
 
 /-- restitution 1 (and no velocity floor) conserves the kinetic energy of the pair, measured in
     the frame of the ghost box of p1 (`v₁ + gb.v`, `v₂`) -/
-theorem c13_hardsphere_energy (st ct sp cp t : K) (gb : GB K) (p1 p2 : Part K)
+theorem c13_hardsphere_energy (eqm : Bool) (st ct sp cp t : K) (gb : GB K) (p1 p2 : Part K)
     (hθ : st*st + ct*ct = 1) (hφ : sp*sp + cp*cp = 1) (hM : p1.m + p2.m ≠ 0) :
     let vn := hsVn st ct sp cp (relOf p1 p2 gb)
-    let n := hsApply st ct sp cp (-(1 + 1) * vn) t p1 p2 p1 p2
+    let n := hsApply eqm st ct sp cp (-(1 + 1) * vn) t p1 p2 p1 p2
     n.1.m * ((n.1.vx + gb.vx)^2 + (n.1.vy + gb.vy)^2 + (n.1.vz + gb.vz)^2)
       + n.2.m * (n.2.vx^2 + n.2.vy^2 + n.2.vz^2)
     = p1.m * ((p1.vx + gb.vx)^2 + (p1.vy + gb.vy)^2 + (p1.vz + gb.vz)^2)
@@ -420,7 +436,10 @@ theorem c13_hardsphere_energy (st ct sp cp t : K) (gb : GB K) (p1 p2 : Part K)
   have f2 : p2.m / (p1.m + p2.m) = 1 - b := by rw [← hMd, e2]; field_simp
   have key := elastic_axis M b cp (sp*ct) (sp*st) (p1.vx + gb.vx) (p1.vy + gb.vy) (p1.vz + gb.vz)
     p2.vx p2.vy p2.vz hM' hu
-  simp only [hsApply, hsVn, relOf, sc_hadd, sc_hsub, sc_hmul, sc_hdiv, f1, f2]
+  intro vn n
+  have hn : n = hsApply false st ct sp cp (-(1 + 1) * vn) t p1 p2 p1 p2 := hsApply_massive eqm st ct sp cp _ t p1 p2 p1 p2 hM
+  rw [hn]
+  simp only [vn, hsApply, hsVn, relOf, sc_hadd, sc_hsub, sc_hmul, sc_hdiv, f1, f2, Bool.false_and, Bool.false_eq_true, if_false]
   simp only at key
   rw [e1, e2]
   linear_combination key
@@ -429,7 +448,7 @@ theorem c13_hardsphere_energy (st ct sp cp t : K) (gb : GB K) (p1 p2 : Part K)
     `(cosθ, sinθ)·ρ = (y₂₁, z₂₁)` and `(cosφ, sinφ)·R = (x₂₁, y₂₁ₙ)`.  Then
     `R·vₙ = r₂₁·v₂₁`, so after a bounce with restitution `ε ≥ 0` the pair separates:
     `r₂₁·v₂₁' = −ε·(r₂₁·v₂₁) ≥ 0` (and ≥ that with a velocity floor). -/
-theorem c13_hardsphere_separating (st ct sp cp rr mcv t ρ R eps : K) (gb : GB K) (p1 p2 : Part K)
+theorem c13_hardsphere_separating (eqm : Bool) (st ct sp cp rr mcv t ρ R eps : K) (gb : GB K) (p1 p2 : Part K)
     (hθ : st*st + ct*ct = 1) (hφ : sp*sp + cp*cp = 1)
     (haθ : ct*ρ = (relOf p1 p2 gb).y21 ∧ st*ρ = (relOf p1 p2 gb).z21)
     (haφ : cp*R = (relOf p1 p2 gb).x21 ∧
@@ -439,7 +458,7 @@ theorem c13_hardsphere_separating (st ct sp cp rr mcv t ρ R eps : K) (gb : GB K
               + (relOf p1 p2 gb).vz21*(relOf p1 p2 gb).z21 ≤ 0) :
     let q := relOf p1 p2 gb
     let vn := hsVn st ct sp cp q
-    let n := hsApply st ct sp cp (hsDvx2 eps mcv rr vn p1 p2) t p1 p2 p1 p2
+    let n := hsApply eqm st ct sp cp (hsDvx2 eps mcv rr vn p1 p2) t p1 p2 p1 p2
     let q' := relOf n.1 n.2 gb
     R * vn = q.vx21*q.x21 + q.vy21*q.y21 + q.vz21*q.z21 ∧
     0 ≤ q'.vx21*q'.x21 + q'.vy21*q'.y21 + q'.vz21*q'.z21 := by
@@ -469,9 +488,10 @@ theorem c13_hardsphere_separating (st ct sp cp rr mcv t ρ R eps : K) (gb : GB K
     linarith
   refine ⟨hvn, ?_⟩
   -- positions unchanged, normal velocity becomes vn + dvx2 ≥ -eps*vn ≥ 0
-  have hnv := c13_hardsphere_normal_velocity st ct sp cp (hsDvx2 eps mcv rr vn p1 p2) t gb p1 p2 hθ hφ hM
+  have hnv := c13_hardsphere_normal_velocity eqm st ct sp cp (hsDvx2 eps mcv rr vn p1 p2) t gb p1 p2 hθ hφ hM
   have hpos : q'.x21 = q.x21 ∧ q'.y21 = q.y21 ∧ q'.z21 = q.z21 := by
-    simp only [q', q, n, relOf, hsApply, and_self]
+    have hn : n = hsApply false st ct sp cp (hsDvx2 eps mcv rr vn p1 p2) t p1 p2 p1 p2 := hsApply_massive eqm st ct sp cp _ t p1 p2 p1 p2 hM
+    simp only [q', q, hn, relOf, hsApply, and_self]
   have hge := hsDvx2_ge eps mcv rr vn p1 p2
   have hvn' : hsVn st ct sp cp q' = vn + hsDvx2 eps mcv rr vn p1 p2 := hnv
   have hnonneg : 0 ≤ hsVn st ct sp cp q' := by
@@ -482,6 +502,18 @@ theorem c13_hardsphere_separating (st ct sp cp rr mcv t ρ R eps : K) (gb : GB K
     rw [hpos.1, hpos.2.1, hpos.2.2, ← ux, ← uy, ← uz]; simp only [hsVn, sc_hadd, sc_hmul]; ring
   rw [← this]
   exact mul_nonneg hR.le hnonneg
+
+/-- with the massless guard (`fixes/C13-hardsphere-massless.diff`) two massless particles bounce
+    like equal masses: each takes half of the impulse, no division by the zero total mass -/
+theorem c13_hardsphere_massless (st ct sp cp dvx2 t : K) (p1 p2 : Part K) (hM : p1.m + p2.m = 0) :
+    let n := hsApply true st ct sp cp dvx2 t p1 p2 p1 p2
+    n.1.vx = p1.vx + 1/2*(cp*dvx2) ∧ n.2.vx = p2.vx - 1/2*(cp*dvx2) ∧
+    n.1.vy = p1.vy + 1/2*(ct*(sp*dvx2)) ∧ n.2.vy = p2.vy - 1/2*(ct*(sp*dvx2)) ∧
+    n.1.vz = p1.vz + 1/2*(st*(sp*dvx2)) ∧ n.2.vz = p2.vz - 1/2*(st*(sp*dvx2)) := by
+  have h0 : feq (p1.m + p2.m) (0 : K) = true := (feq_iff _ _).mpr hM
+  unfold hsApply
+  simp only [sc_hadd, sc_zero, h0, Bool.and_self, if_true, sc_hmul, sc_hdiv, sc_hsub, sc_one, sc_ofNat, Nat.cast_ofNat]
+  simp
 
 end hardsphere
 
@@ -522,6 +554,136 @@ theorem c13_tree_prune_constant (w : K) (hw : 0 ≤ w) :
       _ ≤ ((86602540378443 / 100000000000000 : K))^2 * w^2 := mul_le_mul_of_nonneg_right h hw2
       _ = ((86602540378443 / 100000000000000 : K) * w)^2 := by ring
   · norm_num
+
+/-- `reb_collision_update_max_radius` (8402256) establishes hypothesis H for at least one end of
+    every pair: afterwards every radius is ≤ max_radius0, the stored values have not decreased,
+    and of any two different particles at least one has radius ≤ max_radius1. -/
+theorem c13_max_radius_bound (old0 old1 : K) (radii : List K) :
+    let m := updateMaxRadius old0 old1 radii
+    (∀ x ∈ radii, x ≤ m.1) ∧ old0 ≤ m.1 ∧ old1 ≤ m.2 ∧
+    ∀ (a b : Nat) (hab : a < b) (hb : b < radii.length), radii[a]'(by omega) ≤ m.2 ∨ radii[b] ≤ m.2 := by
+  obtain ⟨h1, h2, h3, h4⟩ := updateMaxRadius_spec old0 old1 radii
+  exact ⟨h1, h3, h4, exceed_pair _ radii h2⟩
+
+/-- **completeness of the TREE walk** (`reb_tree_get_nearest_neighbour_in_cell`) relative to the
+    DIRECT test, over the oct-tree model of C15 under its containment invariant `WF`
+    (`c15_cells_contain_particles`): started from particle `i` with ghost-shifted state `g`, the
+    walk appends `(i,q,gb)` for every leaf `q ≠ i` that passes the DIRECT test, provided
+    H: `r_q ≤ max_radius1`, and the overlap is deeper than `ε·W` (`W` ≥ root cell width) where
+    `(k+ε)² ≥ 3/4`.  For the source's `k = 0.86602540378443`, `ε = 10⁻¹⁴` works
+    (`c13_tree_constant_slack`): the literal is 8.7·10⁻¹⁵ short of √3/2, so pairs touching
+    within 10⁻¹⁴ of the box size can be pruned. -/
+theorem c13_tree_walk_complete (k ε maxR1 W : K) (hk : 0 ≤ k) (hε : 0 ≤ ε) (hkε : 3 ≤ 4 * (k + ε)^2)
+    (P : Nat → Part K) (tie : Bool) (gb g : GB K) (i q : Nat) (r1 : K)
+    (hr1 : 0 ≤ r1) (hH : (P q).r ≤ maxR1) (hqi : q ≠ i)
+    (hhit : directHit g r1 (P q) = true)
+    (hm : 0 ≤ r1 + (P q).r - ε*W)
+    (hov : (g.x - (P q).x)^2 + (g.y - (P q).y)^2 + (g.z - (P q).z)^2 < (r1 + (P q).r - ε*W)^2)
+    (t : RV.Tree.T K) (c : RV.Tree.Cell K) (hwf : RV.C15.WF (psT P) tie c t) (hw0 : 0 ≤ c.w) (hwW : c.w ≤ W)
+    (hq : q ∈ RV.Tree.leaves t) :
+    (⟨(i : Int), (q : Int), gb⟩ : Coll (GB K)) ∈ treeWalk k maxR1 P gb g i r1 t :=
+  mem_treeWalk k ε maxR1 W hk hε hkε P tie gb g i q r1 hr1 hH hqi hhit hm hov t c hwf hw0 hwW hq
+
+theorem c13_tree_constant_slack :
+    (3 : K) ≤ 4 * ((86602540378443 / 100000000000000 : K) + 1 / 100000000000000)^2 := by
+  norm_num
+
+/-- **completeness of the TREE search relative to the DIRECT search**: with `max_radius1` as
+    left by `reb_collision_update_max_radius`, every pair `i ≠ j` that the DIRECT search reports
+    (in both orientations, through the mirrored ghost boxes `gb`, `gb'`) and whose particles are
+    in (well-formed) trees of the forest is found by the TREE search from at least one of its
+    two ends (overlap deeper than `ε·W` as above). -/
+theorem c13_tree_search_complete (k ε W old0 old1 : K) (hk : 0 ≤ k) (hε : 0 ≤ ε)
+    (hkε : 3 ≤ 4 * (k + ε)^2)
+    (ring : List (GB K)) (P : Nat → Part K) (n : Nat) (roots : List (RV.Tree.T K)) (tie : Bool)
+    (hr : ∀ q, 0 ≤ (P q).r)
+    (i j : Nat) (hi : i < n) (hj : j < n) (hij : i ≠ j)
+    (gb gb' : GB K) (hgb : gb ∈ ring) (hgb' : gb' ∈ ring)
+    (hit1 : directHit (shiftGB gb (P i)) (P i).r (P j) = true)
+    (hit2 : directHit (shiftGB gb' (P j)) (P j).r (P i) = true)
+    (hm : 0 ≤ (P i).r + (P j).r - ε*W)
+    (hov1 : ((shiftGB gb (P i)).x - (P j).x)^2 + ((shiftGB gb (P i)).y - (P j).y)^2
+              + ((shiftGB gb (P i)).z - (P j).z)^2 < ((P i).r + (P j).r - ε*W)^2)
+    (hov2 : ((shiftGB gb' (P j)).x - (P i).x)^2 + ((shiftGB gb' (P j)).y - (P i).y)^2
+              + ((shiftGB gb' (P j)).z - (P i).z)^2 < ((P j).r + (P i).r - ε*W)^2)
+    (tj ti : RV.Tree.T K) (cj ci : RV.Tree.Cell K) (htj : tj ∈ roots) (hti : ti ∈ roots)
+    (hwfj : RV.C15.WF (psT P) tie cj tj) (hwfi : RV.C15.WF (psT P) tie ci ti)
+    (hcj : 0 ≤ cj.w ∧ cj.w ≤ W) (hci : 0 ≤ ci.w ∧ ci.w ≤ W)
+    (hjl : j ∈ RV.Tree.leaves tj) (hil : i ∈ RV.Tree.leaves ti) :
+    let m1 := (updateMaxRadius old0 old1 ((List.range n).map fun q => (P q).r)).2
+    (⟨(i : Int), (j : Int), gb⟩ : Coll (GB K)) ∈ treeSearch k m1 ring P n roots ∨
+    (⟨(j : Int), (i : Int), gb'⟩ : Coll (GB K)) ∈ treeSearch k m1 ring P n roots := by
+  intro m1
+  obtain ⟨_, _, _, hpair⟩ := c13_max_radius_bound old0 old1 ((List.range n).map fun q => (P q).r)
+  have hlen : ((List.range n).map fun q => (P q).r).length = n := by simp
+  have hH : (P i).r ≤ m1 ∨ (P j).r ≤ m1 := by
+    rcases Nat.lt_or_gt_of_ne hij with h | h
+    · have := hpair i j h (by rw [hlen]; exact hj)
+      simpa using this
+    · have := hpair j i h (by rw [hlen]; exact hi)
+      simpa using this.symm
+  unfold treeSearch
+  simp only [List.mem_flatMap, List.mem_range]
+  rcases hH with hH | hH
+  · right
+    refine ⟨j, hj, gb', hgb', ti, hti, ?_⟩
+    exact mem_treeWalk k ε m1 W hk hε hkε P tie gb' _ j i (P j).r (hr j) hH hij hit2
+      (by linarith) hov2 ti ci hwfi hci.1 hci.2 hil
+  · left
+    refine ⟨i, hi, gb, hgb, tj, htj, ?_⟩
+    exact mem_treeWalk k ε m1 W hk hε hkε P tie gb _ i j (P i).r (hr i) hH (Ne.symm hij) hit1
+      hm hov1 tj cj hwfj hcj.1 hcj.2 hjl
+
+/-- soundness of the TREE walk: every entry it appends is `(i,q,gb)` for a leaf `q ≠ i` of the
+    tree that passes the DIRECT test — the TREE search reports nothing DIRECT would not. -/
+theorem c13_tree_walk_sound (k maxR1 : K) (P : Nat → Part K) (gb g : GB K) (i : Nat) (r1 : K)
+    (t : RV.Tree.T K) (e : Coll (GB K)) (h : e ∈ treeWalk k maxR1 P gb g i r1 t) :
+    ∃ q, q ∈ RV.Tree.leaves t ∧ q ≠ i ∧ directHit g r1 (P q) = true ∧ e = ⟨(i : Int), (q : Int), gb⟩ :=
+  treeWalk_sound k maxR1 P gb g i r1 t e h
+
+/-- **completeness of the LINETREE walk** (`reb_tree_check_for_overlapping_trajectories_in_cell`,
+    as repaired by c3afa2d / 5a2eb94) relative to the LINE test: started from particle `i`, the
+    walk appends `(i,q,gb)` for every leaf `q ≠ i` of a well-formed tree whose straight-line path
+    came within `r_i + r_q` of p1's during the last step (deeper than `ε·W`), provided
+    H: `r_q ≤ max_radius1` and `D1`, `D2` bound the drifts `|dt|·|v|` of the ghost-shifted p1 and
+    of `q` (in the code: `p1_r_plus_dtv - p1_r` and `maxdrift`). -/
+theorem c13_linetree_walk_complete (k ε maxR1 W dt D1 D2 : K) (hk : 0 ≤ k) (hε : 0 ≤ ε)
+    (hkε : 3 ≤ 4 * (k + ε)^2) (hdt : dt ≠ 0)
+    (P : Nat → Part K) (tie : Bool) (gb g : GB K) (i q : Nat) (r1 : K)
+    (hr1 : 0 ≤ r1) (hH : (P q).r ≤ maxR1) (hqi : q ≠ i)
+    (hD1 : 0 ≤ D1 ∧ dt^2 * (g.vx^2 + g.vy^2 + g.vz^2) ≤ D1^2)
+    (hD2 : 0 ≤ D2 ∧ dt^2 * ((P q).vx^2 + (P q).vy^2 + (P q).vz^2) ≤ D2^2)
+    (hhit : lineHit dt g r1 (P q) = true)
+    (hm : 0 ≤ r1 + (P q).r - ε*W)
+    (hov : lineRmin2 dt g (P q) < (r1 + (P q).r - ε*W)^2)
+    (t : RV.Tree.T K) (c : RV.Tree.Cell K) (hwf : RV.C15.WF (psT P) tie c t) (hw0 : 0 ≤ c.w) (hwW : c.w ≤ W)
+    (hq : q ∈ RV.Tree.leaves t) :
+    (⟨(i : Int), (q : Int), gb⟩ : Coll (GB K)) ∈
+      lineTreeWalk k maxR1 dt D2 P gb g i r1 (r1 + D1) t :=
+  mem_lineTreeWalk k ε maxR1 W dt D1 D2 hk hε hkε hdt P tie gb g i q r1 hr1 hH hqi hD1 hD2 hhit hm hov
+    t c hwf hw0 hwW hq
+
+/-- the drift terms the LINETREE search computes do bound the drifts: with libm's `sqrt`, `fabs`
+    behaving as square root and absolute value on the values concerned, `|dt|·√(v_i²)` and
+    `maxdrift = |dt|·√(vmax2)` satisfy the hypotheses `hD1` (ghost box without velocity offset,
+    i.e. not a shear image) and `hD2` (any `q < N`) of `c13_linetree_walk_complete`. -/
+theorem c13_linetree_drift_bounds (sqrtF fabsF : K → K) (dt : K) (P : Nat → Part K) (n i q : Nat)
+    (hq : q < n) (hfabs : fabsF dt = |dt|)
+    (hsqrt : ∀ x, 0 ≤ x → 0 ≤ sqrtF x ∧ sqrtF x ^ 2 = x) :
+    let si := (P i).vx^2 + (P i).vy^2 + (P i).vz^2
+    (0 ≤ fabsF dt * sqrtF si ∧ dt^2 * si ≤ (fabsF dt * sqrtF si)^2) ∧
+    (0 ≤ fabsF dt * sqrtF (vmax2 P n) ∧
+      dt^2 * ((P q).vx^2 + (P q).vy^2 + (P q).vz^2) ≤ (fabsF dt * sqrtF (vmax2 P n))^2) := by
+  intro si
+  have hsi : 0 ≤ si := by positivity
+  obtain ⟨hv, hv0⟩ := vmax2_ge P n q hq
+  obtain ⟨a1, a2⟩ := hsqrt si hsi
+  obtain ⟨b1, b2⟩ := hsqrt (vmax2 P n) hv0
+  rw [hfabs]
+  refine ⟨⟨mul_nonneg (abs_nonneg _) a1, ?_⟩, ⟨mul_nonneg (abs_nonneg _) b1, ?_⟩⟩
+  · rw [mul_pow, sq_abs, a2]
+  · rw [mul_pow, sq_abs, b2]
+    exact mul_le_mul_of_nonneg_left hv (sq_nonneg dt)
 
 end prune
 
